@@ -27,6 +27,7 @@
 #include "statistic.h"
 #include <math.h>
 #include <pthread.h>
+#include "verifhooks.h"
 
 void NewPLSModel(PLSMODEL** m)
 {
@@ -290,6 +291,10 @@ void LVCalc(matrix *X,
         t_old->data[i] = t_->data[i];
     }
     else{
+      #ifdef LIBSCIENTIFIC_VERIF
+      if(libsci_verif_tick_hook != NULL)
+        libsci_verif_tick_hook(1, loop, calcConvergence(t_, t_old));
+      #endif
       if(calcConvergence(t_, t_old) < PLSCONVERGENCE){
         break;
       }
